@@ -19,9 +19,9 @@ import (
 func c20wGen(rt *rapid.T) wProg {
 	p := c02Gen(rt)
 	// more reloads and restarts of the P2P topic than the delivery check needs
-	extra := rapid.IntRange(1, 3).Draw(rt, "extra")
+	extra := gInt(rt, 1, 3, "extra")
 	for i := 0; i < extra; i++ {
-		at := rapid.IntRange(1, len(p.Ops)).Draw(rt, "at")
+		at := gInt(rt, 1, len(p.Ops), "at")
 		var ins []wOp
 		if gPct(rt, 70) {
 			ins = []wOp{{K: "reload", T: "p1"}}
